@@ -63,9 +63,12 @@ inline Future<Executor::ResultType<C&&, Args&&...>, F> Executor::execute(
   using InnerArgsTuple = typename CallableArgs<C>::type;
   Promise<R, F> promise;
   auto future = promise.get_future();
-  submit(await_apply_and_set_value<InnerArgsTuple>(
+  auto ret = submit(await_apply_and_set_value<InnerArgsTuple>(
       ::std::move(promise), ::std::forward<C>(callable),
       ::std::forward_as_tuple(::std::forward<Args>(args)...)));
+  if (ABSL_PREDICT_FALSE(ret != 0)) {
+    future = Future<R, F>();
+  }
   return future;
 }
 
@@ -76,8 +79,11 @@ inline Future<Executor::AwaitResultType<A&&>, F> Executor::execute(
   using R = AwaitResultType<A&&>;
   Promise<R, F> promise;
   auto future = promise.get_future();
-  submit(
+  auto ret = submit(
       await_and_set_value(::std::move(promise), ::std::forward<A>(awaitable)));
+  if (ABSL_PREDICT_FALSE(ret != 0)) {
+    future = Future<R, F>();
+  }
   return future;
 }
 #endif // __cpp_concepts && __cpp_lib_coroutine
